@@ -9,7 +9,7 @@ use crate::{for_both, hx, Ctx, Tier};
 use blsful::*;
 use serde_json::json;
 
-pub const RULE: &str = "per honest tuple (key from E or random, message from the length classes incl. 160 / 208 where pk||msg is 256 bytes, contents rotating random / all-zero / all-0xff / counter, scheme, group; signed by the reference) the whole perturbation catalogue of the quantifier is applied: sig+kG (k=1,2,r-1), -sig, 2*sig, 3*sig, signature of another message, signature by another key; every single-bit flip of the message (exhaustive for the designated short-message tuple of each cell, 16 sampled flips otherwise), truncate by 1, extend by 0x00, replace by empty; pk of another key, pk+G, -pk; each other scheme label on the same point; the identity as key, as signature and as both (the pairing equation holds trivially for the last; cell 'identity'); VALID variants: (sig+Q)-Q, 2*(sig/2), decode(encode(sig)), key-sum with signature-sum over one message (valid in Basic/PoP, invalid in Aug). Each tuple is decided by Signature::verify, MultiSignature::verify and PublicKeyShare::verify and by the reference CoreVerify; library decision must equal the constructed expectation and the reference (expectation != reference is a harness error). History pass: around every invalid tuple the sequence honest, invalid, invalid, honest is asked through Signature::verify and must answer accept, reject, reject, accept (a decision may depend on the tuple only, not on what was asked before). Distinct by (suite,scheme,entry,pk,sig,msg); all tuples outside the 'identity' cell are non-trivial (both points decode, neither is the identity, the pairing equation decides).";
+pub const RULE: &str = "per honest tuple (key from E or random, message from the length classes incl. 160 / 208 where pk||msg is 256 bytes, contents rotating random / all-zero / all-0xff / counter, scheme, group; signed by the reference) the whole perturbation catalogue of the quantifier is applied: sig+kG (k=1,2,r-1), -sig, 2*sig, 3*sig, signature of another message, signature by another key; every single-bit flip of the message (exhaustive for the designated short-message tuple of each cell, 16 sampled flips otherwise), truncate by 1, extend by 0x00, replace by empty; pk of another key, pk+G, -pk; each other scheme label on the same point; the identity as key, as signature and as both (the pairing equation holds trivially for the last; cell 'identity'); VALID variants: (sig+Q)-Q, 2*(sig/2), decode(encode(sig)), key-sum with signature-sum over one message (valid in Basic/PoP, invalid in Aug). Each tuple is decided by Signature::verify (also with key / signature held in other internal representations of the same points: Jacobian coordinates rescaled with -1, (P+G)-G), MultiSignature::verify and PublicKeyShare::verify and by the reference CoreVerify; library decision must equal the constructed expectation and the reference (expectation != reference is a harness error). History pass: around every invalid tuple the sequence honest, invalid, invalid, honest is asked through Signature::verify and must answer accept, reject, reject, accept (a decision may depend on the tuple only, not on what was asked before). Distinct by (suite,scheme,entry,pk,sig,msg); all tuples outside the 'identity' cell are non-trivial (both points decode, neither is the identity, the pairing equation decides).";
 
 pub fn run(ctx: &mut Ctx) {
     for_both!(run_suite, ctx);
@@ -214,6 +214,34 @@ fn one_tuple<C: Suite>(ctx: &mut Ctx, g: u64, scheme: Scheme, kname: &str, sk: &
             let what = if expect { "valid-rejected" } else { "invalid-accepted" };
             ctx.expect(got == expect, &format!("C02/{what}/Signature::verify/{}/{}/{kind}", C::NAME, t.scheme.name()), || d("Signature::verify", got));
             ctx.hit(&cell, &[b"sig", &pkb, &sgb, &t.msg, &[t.scheme.wire()]]);
+        }
+        // the same tuple with the key and / or the signature point in another internal
+        // representation (Jacobian coordinates rescaled with -1; equal as group elements, same
+        // bytes): the decision must not change. A fresh computation (k*G form) is tried as well.
+        {
+            let reps_pk: Vec<(&str, PkPt<C>)> = [("rescaled(-1)", C::pk_other_representation(&lpk.0)), ("(P+G)-G", Some((lpk.0 + pk_gen::<C>()) - pk_gen::<C>()))].into_iter().filter_map(|(n, p)| p.map(|p| (n, p))).collect();
+            let reps_sig: Vec<(&str, SigPt<C>)> = [("rescaled(-1)", C::sig_other_representation(&lsig_pt)), ("as-decoded", Some(lsig_pt))].into_iter().filter_map(|(n, p)| p.map(|p| (n, p))).collect();
+            for (pn, pp) in &reps_pk {
+                for (sn2, sp) in &reps_sig {
+                    if enc_pt(pp) != pkb || enc_pt(sp) != sgb {
+                        ctx.harness_error(format!("C02: representation {pn}/{sn2} does not encode to the same bytes"));
+                        continue;
+                    }
+                    let rsig = wrap_sig::<C>(t.scheme, *sp);
+                    let rpk = PublicKey::<C>(*pp);
+                    let got = ctx.guard("Signature::verify (other representation)", || d("Signature::verify", false), || rsig.verify(&rpk, &t.msg).is_ok());
+                    if let Some(got) = got {
+                        ctx.expect(got == expect, &format!("C02/representation-dependent/{}/{}/{kind}", C::NAME, t.scheme.name()), || {
+                            let mut x = d("Signature::verify", got);
+                            x["what"] = json!("the decision changes when the same points are held in another internal representation");
+                            x["pk_representation"] = json!(pn);
+                            x["sig_representation"] = json!(sn2);
+                            x
+                        });
+                        ctx.count("representation_variants", 1);
+                    }
+                }
+            }
         }
         // entry 2: MultiSignature::verify with the same point under the same key
         let m = wrap_multi::<C>(t.scheme, lsig_pt);
